@@ -130,12 +130,13 @@ CHECKS = {
              "unknown identifier / member / type, break / continue outside a loop or inside a function literal, duplicate function / "
              "parameter / global, non-constant global, implicit any, main shape, declared / returned type incl. after a function "
              "literal, operator outside its type, calling / indexing a non-function / non-container, loop and if values, missing "
-             "match default) are judged by HmsTypes: ok with the type of every let-bound variable, the class of the first broken "
+             "match default, 13 ways to break an impl block, 11 ways to break a trigger statement) are judged by HmsTypes: ok with the type of every let-bound variable, the class of the first broken "
              "rule, or unspec. The analyzer must report no error-level diagnostic exactly for the ok programs and must have "
              "recorded the same variable types.",
-        note="Not modelled (programs using them are not generated for C03): singletons, impl blocks / templates, trigger "
-             "statements and annotations, imports. Loops without a break that contain a diverging expression are unspec. "
-             "Trusted: the transcription of the rule tables.",
+        note="Also modelled: singletons and singleton parameters, impl blocks against the host template (capabilities, required "
+             "methods, parameter names / types, extraction), trigger statements (imported trigger, event callback of the "
+             "trigger's shape, arguments). Not modelled: #[trigger] annotations, imports between Homescript modules (C15). "
+             "Trusted: the transcription of the rule tables and of the test host's template / trigger.",
         design="5/C03"),
     "C15": dict(
         technique="TLA+ spec of modules, imports and name resolution (HmsLink) model-checked with TLC over the "
